@@ -4,7 +4,7 @@ from vlib import core, rc, rcheck, run as vrun, build, fsgen
 LEVEL = 'exploration'
 RULE = ('rapidcheck generates a template (inode size 128/256/512/1024 x ea_inode x metadata_csum x 1k/4k x inline_data) and 2-40 ops on a regular file, a directory and an inline-data file: '
         'set (12 names per case over user./trusted./security./system./posix_acl prefixes with suffix lengths 1..255; value sizes 0, tiny, in-inode free space +-8, block free space +-8, beyond one block), '
-        'remove, get, iterate, handle reopen, filesystem reopen; oracle = name->value map compared after failed sets, reopens and at the end, inline file content unchanged, e2fsck -fn == 0; '
+        'remove, get, iterate, handle reopen, filesystem reopen, and "share": a second inode without attributes is made to reference the first one\'s xattr block (refcount + 1, as the kernel\'s block cache does), so that later changes go through the copy-on-write paths; oracle = name->value map compared after failed sets, reopens and at the end, inline file content unchanged, e2fsck -fn == 0; '
         'non-trivial = attributes ended up in >= 2 placements (inode body, block, ea_inode) or a name was replaced; distinct by FNV hash of the case')
 
 def templates():
